@@ -78,23 +78,37 @@ def r09(run):
             return False
         return True
 
+    # definitions of the subject made inside a branch that reach a `return <subject>` (a dead store is harmless)
+    ret_subj = [n for n in fa.cfg.nodes if n.kind == "stmt" and isinstance(n.ast, ast.Return) and fa.cfg.is_live(n)
+                and isinstance(n.ast.value, ast.Name) and n.ast.value.id == subj]
+    run.floor("R09b", "returns of the subject in logical_parse", len(ret_subj), 1)
+    for k in ("|", "^", "~"):
+        inside = set(branch_nodes[k])
+        seen = set()
+        for r in ret_subj:
+            for d in fa.rd.defs_of(r, subj):
+                if d in inside and d.kind == "stmt" and isinstance(d.ast, (ast.Assign, ast.AugAssign)) and d not in seen:
+                    seen.add(d)
+                    a = d.ast
+                    if k == "^":
+                        ok = isinstance(a, ast.Assign) and is_convert_result(d, a.value, allow_subject=True) \
+                            and not any(c for nn, c in converts if nn is d)
+                        msg = "is not the recorded result of the single accepting conversion of the original input"
+                    else:
+                        ok = False
+                        msg = ("reassigns the input, and that value reaches `return " + subj + "`: the branch must "
+                               "return the input unchanged / a conversion result of the original input")
+                    run.check("R09b", f, f"`{k}` branch: `{norm_stmt(a)[:60]}` keeps the result provenance", ok,
+                              construct=f"`{k}` branch reassigns the subject",
+                              message=f"in the `{k}` branch `{norm_stmt(a)}` {msg}",
+                              necessity="negation must return the input unchanged; a union / exclusive-or must return "
+                                        "the conversion of the *original* input by an accepting argument", node=a)
+        run.ob("R09b", f, f"`{k}` branch: {len(seen)} definition(s) of the subject reach a return", True)
     for k in ("|", "^", "~"):
         for n in branch_nodes[k]:
             if n.kind != "stmt":
                 continue
             a = n.ast
-            if isinstance(a, ast.Assign) and any(isinstance(t, ast.Name) and t.id == subj for t in a.targets):
-                if k == "^":
-                    ok = is_convert_result(n, a.value, allow_subject=True) and not any(c for nn, c in converts if nn is n)
-                    msg = "is not the recorded result of the single accepting conversion of the original input"
-                else:
-                    ok = False
-                    msg = "reassigns the input inside a branch that must return it unchanged / return a conversion result"
-                run.check("R09b", f, f"`{k}` branch: `{norm_stmt(a)[:60]}` keeps the result provenance", ok,
-                          construct=f"`{k}` branch reassigns the subject",
-                          message=f"in the `{k}` branch `{norm_stmt(a)}` {msg}",
-                          necessity="negation must return the input unchanged; a union / exclusive-or must return the "
-                                    "conversion of the *original* input by an accepting argument", node=a)
             if isinstance(a, ast.Return):
                 v = a.value
                 facts = {(unparse(x), p) for x, p in fa.facts.atoms_at(n)}
@@ -143,6 +157,17 @@ def r09(run):
                       construct="`~` branch rejects on failure",
                       message="in the `~` branch the handler of a failed conversion records or raises an error",
                       necessity="negation would reject values its argument rejects", node=h.handler)
+    # `^`: the conversion loop runs over every argument: no return inside it
+    for n, c in per["^"]:
+        loops = [m for m in branch_nodes["^"] if m.kind == "iter" and any(x is c for x in walk_shallow(m.stmt))]
+        for lp in loops:
+            rets = [x for x in walk_shallow(lp.stmt) if isinstance(x, ast.Return)]
+            run.check("R09c", f, "`^` branch: the conversion loop visits every argument (no return inside)", not rets,
+                      construct="`^` branch returns inside the conversion loop",
+                      message="the `^` branch returns from inside its conversion loop: later arguments are never "
+                              "tested against the input", necessity="an input accepted by two arguments is accepted "
+                              "(with the first one's result) instead of being rejected",
+                      node=rets[0] if rets else None)
     # `^`: second acceptance -> OneOfViolatedError; the accepting flag is reset/recorded
     one = [m for m in branch_nodes["^"] if m.kind == "stmt" and any(
         is_handle_error_call(x) and x.args and exc_class_of_ctor(x.args[0]) == "OneOfViolatedError"
